@@ -27,7 +27,7 @@ MIN_CHECKS = {'quick': 12000, 'thorough': 250000}
 EXHAUSTIVE = {'quick': True, 'thorough': True}
 REQUIRED_COUNTERS = ['chk:equal', 'chk:independent', 'chk:file-eq']
 
-OPS = ('chan', 'rows', 'rfi', 'mef', 'gate')
+OPS = ('chan', 'rows', 'rfi', 'mef', 'gate', 'xform')
 DUPS = ['copy()', 'copy.copy', 'deepcopy', 'view()'] + ['pickle%d' % p for p in range(6)]
 
 
@@ -61,6 +61,14 @@ def apply_op(F, rng, s, op):
         if len(set(s.channels)) == len(s.channels) and rng.random() < 0.5:
             return F.transform.to_mef(s, [s.channels[p] for p in pos], crv, [s.channels[p] for p in pos])
         return F.transform.to_mef(s, pos, crv, pos)
+    if op == 'xform':
+        # the generic transformation with a NumPy function: range limits go through the same function and may be
+        # held in another container type than after loading
+        k = int(rng.integers(1, D + 1))
+        pos = [int(x) for x in np.sort(rng.permutation(D)[:k])]
+        fn = [np.sqrt, np.log1p, np.abs, (lambda x: x * 2.0), np.cbrt][int(rng.integers(5))]
+        with np.errstate(all='ignore'):
+            return F.transform.transform(s, pos, fn)
     if op == 'gate':
         if rng.random() < 0.5 or s.shape[0] < 4:
             return F.gate.high_low(s)
